@@ -135,14 +135,26 @@ pub fn multifile_symbols(rng: &mut Rng, disk: &mut crate::disk::Disk) -> String 
     rng.shuffle(&mut order);
     for k in order {
         let path = format!("{}part{}.asm", rng.pick(&dirs), k);
-        let body = format!("{}:\n    put {}\n.sub:\n    put {}\nval_{} = {}\n", names[k], k + 1, k + 11, names[k], k + 21);
+        let mut body = format!("{}:\n    put {}\n.sub:\n    put {}\nval_{} = {}\n", names[k], k + 1, k + 11, names[k], k + 21);
+        if rng.chance(1, 4) {
+            // an error of its own in this part
+            body.push_str(&format!("    put missing_in_{}\n", names[k]));
+        }
         disk.add_file(&path, body.into_bytes());
         root.push_str(&format!("#include \"{}\"\n", path));
     }
     if rng.chance(1, 3) {
         root.push_str("    put undefined_thing\n");
     }
-    disk.add_file("multi.asm", root.into_bytes());
+    disk.add_file("multi.asm", root.clone().into_bytes());
+    // the same parts included in reverse order (another root of the same
+    // tree: a host that assembled it earlier has opened the files in the
+    // opposite order)
+    let mut lines: Vec<&str> = root.lines().collect();
+    let inc: Vec<&str> = lines.iter().copied().filter(|l| l.starts_with("#include")).rev().collect();
+    lines.retain(|l| !l.starts_with("#include"));
+    let rev = format!("{}\n{}\n", lines.join("\n"), inc.join("\n"));
+    disk.add_file("multi_rev.asm", rev.into_bytes());
     "multi.asm".to_string()
 }
 
@@ -207,6 +219,10 @@ pub fn bank_program(rng: &mut Rng) -> Vec<u8> {
             if rng.chance(1, 4) {
                 s.push_str("#d8 $\n");
             }
+            if rng.chance(1, 5) {
+                // an element that emits nothing
+                s.push_str("#d \"\"\n");
+            }
             // positions moved by directives that emit nothing, then a label
             // with nothing after it (possibly past the end of a sized bank)
             match rng.below(6) {
@@ -239,6 +255,23 @@ pub fn convergence_program(rng: &mut Rng) -> Vec<u8> {
     s.push_str("    two {x}, {y} => asm {\n        emit {x}\n        emitlt {y}\n    }\n");
     s.push_str("    ldv {x} => x < 0x10 ? 0x1`4 @ x`4 : 0x11 @ x`8\n");
     s.push_str("    ldw {x} =>\n    {\n        assert(x < 4)\n        0x20 @ x`8\n    }\n    ldw {x} =>\n    {\n        assert(x >= 4)\n        0x21 @ x`16\n    }\n}\n\n");
+    let osc = rng.chance(1, 2);
+    if osc {
+        // an asm block whose own labels move between its passes (sizes chosen
+        // by asserts on the label values): several labels can still be moving
+        // when the block gives up
+        s = s.replacen("}\n\n", "", 1);
+        s.push_str("    ldo {x} =>\n    {\n        assert(x <= 0x8)\n        0x11 @ x`16\n    }\n    ldo {x} =>\n    {\n        assert(x > 0x8)\n        0x22 @ x`8\n    }\n    osc => asm {\n");
+        let nlab = rng.range(2, 3);
+        let names = ["first", "second", "third"];
+        for _ in 0..rng.range(2, 5) {
+            s.push_str(&format!("        ldo {}\n", names[rng.below(nlab)]));
+        }
+        for l in names.iter().take(nlab) {
+            s.push_str(&format!("        {}:\n", l));
+        }
+        s.push_str("    }\n}\n\n");
+    }
     let labels = ["la", "lb", "lc", "ld_", "le"];
     let nl = rng.range(2, 5);
     let n = rng.range(2, 7);
@@ -259,6 +292,9 @@ pub fn convergence_program(rng: &mut Rng) -> Vec<u8> {
             s.push_str(&format!("{}:\n", labels[placed]));
             placed += 1;
         }
+    }
+    if osc {
+        s.push_str("osc\n");
     }
     while placed < nl {
         s.push_str(&format!("{}:\n", labels[placed]));
@@ -663,6 +699,21 @@ pub fn draw_env(rng: &mut Rng) -> Vec<(String, String)> {
 pub fn build_plan(rng: &mut Rng, seed: u64, c: &Corpus) -> SimPlan {
     if rng.chance(1, 8) {
         return build_realfs_plan(rng, seed, c);
+    }
+    if rng.chance(1, 16) {
+        // directed pair on one thread and one reused server: the same tree
+        // assembled first from its reversed root, then from its ordinary
+        // root (the files were opened in the opposite order before)
+        let mut disk = crate::disk::Disk::new(corpus::PROJ);
+        let root = multifile_symbols(rng, &mut disk);
+        let mut spec = Spec::simple(&root);
+        spec.quiet = true;
+        let job = Job::from_spec(&format!("genprog:{}:pair", root), disk.clone(), spec.clone());
+        let mut pspec = spec.clone();
+        pspec.roots = vec!["multi_rev.asm".to_string()];
+        let pred = Job::from_spec("genprog:multi_rev.asm:pair", disk, pspec);
+        let keys = rng.bytes16();
+        return SimPlan { faults: vec![vec![], vec![]], jobs: vec![pred, job], threads: vec![ThreadPlan { keys: keys_to_hex(&keys), jobs: vec![0, 1], reuse: vec![false, true], offsets: vec![0, 0] }], schedule: vec![], sched_seed: None, switch_16: 0, clock: vec![], lib_pass: true, all_formats: true, realfs: false, env: vec![] };
     }
     // now and then a long history on one thread (state that only builds up
     // over dozens of assemblies, e.g. a counter leaked on error paths)
